@@ -1,22 +1,119 @@
 T = "GeomV.C05."
+# T1: one tie lemma per Go function of encoding/wkb and encoding/hex (lean/GeomV/C05/Tie.lean)
+TIES = {  # tie lemma -> the Go function(s) it ties
+    "tie_constants": "the constants wkbXDR/wkbNDR, wkbPoint..wkbGeometryCollection, XDR/NDR, maxChunk",
+    "tie_writePoint": "writePoint", "tie_writePoints": "writePoints", "tie_writePointss": "writePointss",
+    "tie_writeLineString": "writeLineString", "tie_writePolygon": "writePolygon", "tie_writeMultiPoint": "writeMultiPoint",
+    "tie_writeMultiLineString": "writeMultiLineString", "tie_writeMultiPolygon": "writeMultiPolygon",
+    "tie_writeGeometryCollection": "writeGeometryCollection", "tie_Write": "Write", "tie_write": "Write (the recursion through the writers)",
+    "tie_encode": "Encode",
+    "tie_pointReader": "pointReader", "tie_minUint32": "minUint32", "tie_readPoints": "readPoints", "tie_lineStringReader": "lineStringReader",
+    "tie_polygonReader": "polygonReader", "tie_multiPointReader": "multiPointReader", "tie_multiLineStringReader": "multiLineStringReader",
+    "tie_multiPolygonReader": "multiPolygonReader", "tie_geometryCollectionReader": "geometryCollectionReader",
+    "tie_wkbReaders": "init (the dispatch table wkbReaders)", "tie_dispatch": "Read (dispatch through wkbReaders)", "tie_Read": "Read",
+    "tie_read": "Read (the recursion through the readers)", "tie_decode": "Decode",
+    "tie_hexEncode": "hex.Encode", "tie_hexDecode": "hex.Decode",
+}
+SRC = ["C05_roundtrip_src", "C05_layout_src", "C05_mixed_order_src", "C05_decode_mixed_src", "C05_unsupported_src", "C05_hex_src"]
 CFG = {
     "id": "C05",
-    "lean_modules": ["GeomV.C05.Proofs"],
+    "lean_modules": ["GeomV.C05.Proofs", "GeomV.C05.Tie"],
     "exe": "geomv_c05",
     "go_cmd": "c05",
     "stages": ["go:gen", "lean:prep", "go:impl", "lean:judge"],
     "theorems": [T + n for n in ["C05_mixed_order", "C05_decode_mixed", "C05_layout", "C05_roundtrip",
-                                 "C05_type_preserved", "C05_unsupported", "C05_hex", "C05_hex_lower"]],
+                                 "C05_type_preserved", "C05_unsupported", "C05_hex", "C05_hex_lower"]
+                                + [n for n in TIES if n != "tie_dispatch"] + SRC],
     "trusted_base": [
         "Lean 4.33.0 kernel; axioms of every theorem printed by #print axioms must be within {propext, Classical.choice, Quot.sound}",
-        "model lean/GeomV/C05/Model.lean is tied to /repo/encoding/{wkb,hex} by the correspondence run (byte-exact, both directions) on every check",
+        "T1: harness/cmd/c05/extract.go (go/ast, statement-level, subset listed in its header) regenerates lean/GeomV/C05/Gen.lean from "
+        "encoding/wkb/*.go and encoding/hex/hex.go of the tree under test on every run; Tie.lean proves every regenerated function equal to the "
+        "model's (28 tie lemmas; the chunked readPoints by induction) and the theorems are restated for the regenerated Encode/Decode/Read "
+        "(C05_*_src). Trusted in T1: the translator and the meaning lean/GeomV/C05/GenLib.lean gives to io.Reader/io.Writer (remaining bytes / bytes "
+        "written; bytes written before an error are not modelled), encoding/binary, uint32 wrap-around, the three loop forms, map lookup, and "
+        "the unrolling of the Read/Write recursion. A function outside the subset makes Gen.lean fail to elaborate and is reported by name",
+        "T2: model lean/GeomV/C05/Model.lean is tied to /repo/encoding/{wkb,hex} by the correspondence run (byte-exact, both directions) on every check",
         "Go encoding/binary and encoding/hex behave as their documentation says (fixed-width integers / IEEE bit patterns in the given byte order; lower-case hex)",
         "harness/cmd/c05 + lean driver + lib/vcheck.py transport inputs faithfully",
     ],
-    "assumptions": ["member counts < 2^32 (the WKB count field); nil slices and empty slices are not distinguished"],
+    "assumptions": ["member counts < 2^32 (the WKB count field); nil slices and empty slices are not distinguished",
+                    "T1 sees the text of the functions, not the Go memory model: aliasing of results or inputs, state kept between calls and "
+                    "package-level variables are outside the regenerated definitions (any use of a package-level variable other than the dispatch "
+                    "table leaves the subset and is reported) and are probed by T2 (late-read batches, shared-backing inputs, repeated calls)"],
     "rule": "grammar-generated geometries of the 7 encodable types (nesting <= 5, member counts from {0,1,2,3,5,17,255..257}, "
             "coordinates from random 64-bit patterns/NaN payloads/±0/±Inf/subnormals/ordinary values); each yields enc(XDR), enc(NDR), "
-            "round-trip, hex round-trip and a mixed-byte-order decode produced by the independent OGC serializer; plus truncated encodings. "
+            "round-trip, hex round-trip and a mixed-byte-order decode produced by the independent OGC serializer; long point sequences around the "
+            "chunk size (1023..3000; thorough to 8193 and 65535..65537); point counts 127..130, 255..257, 2047..2049 (hex scratch sizes) at one nesting level; "
+            "nil slices at every level; shared-backing inputs (rings/members as consecutive windows of one flat buffer with spare capacity and as prefix "
+            "re-slices) encoded twice in both orders with a bit-for-bit before/after comparison of the input and of the two encodings; late-read encode batches; "
+            "wkb.Read behind short-read readers; rejected-decode histories; truncated encodings. "
             "distinct = distinct input line; non-trivial = verdict class not 'skipped'",
     "timeout": {"quick": 600, "thorough": 3000},
 }
+
+
+def pregen(check):
+    """T1: regenerate Gen.lean from encoding/wkb/*.go and encoding/hex/hex.go of the tree under test (written
+    only when it changed) and pre-build the tie.  A function that left the translatable subset, or a tie lemma
+    that no longer holds, is reported with the Go function's name; the module GeomV.C05.Tie is then left out of the
+    main build so that the theorems about the model are still checked and counted (the tie lemmas and the
+    *_src theorems are reported as not discharged)."""
+    import os, re, subprocess
+    import vcheck
+    cfg = check.cfg
+
+    def drop(why):
+        cfg["lean_modules"] = [m for m in cfg["lean_modules"] if m != T + "Tie"]
+        check.broken.append(why)
+
+    gen = os.path.join(vcheck.LEAN, "GeomV", "C05", "Gen.lean")
+
+    def write(text):
+        old = open(gen).read() if os.path.exists(gen) else ""
+        if old != text:
+            with open(gen + ".tmp", "w") as f:
+                f.write(text)
+            os.replace(gen + ".tmp", gen)
+
+    ok, gobin, out = vcheck.go_build("c05", check.rundir)
+    if not ok:
+        write("import GeomV.C05.GenLib\n/-! The T1 extractor could not be built against the tree under test. -/\n"
+              "theorem untranslatable : \"harness/cmd/c05 does not compile against the tree under test\" = \"\" := by decide\n")
+        drop("T1 tie: harness/cmd/c05 (with the extractor) does not compile against the tree under test")
+        return
+    p = subprocess.run([gobin, "extract", "--repo", vcheck.REPO], stdout=subprocess.PIPE, stderr=subprocess.PIPE, text=True)
+    if p.returncode not in (0, 3) or not p.stdout.startswith("import"):
+        drop("T1 tie: extractor failed: " + p.stderr.strip()[-300:])
+        return
+    write(p.stdout)
+    if p.returncode == 3:
+        # Gen.lean now holds, in place of each such function, a declaration that does not elaborate
+        drop("T1 tie: Go function(s) outside the translatable subset, the regenerated Gen.lean does not elaborate: "
+             + " | ".join(p.stderr.strip().splitlines())[:900])
+        return
+    with vcheck.Lock("lake"):
+        b = subprocess.run(["lake", "build", T + "Tie"], cwd=vcheck.LEAN, stdout=subprocess.PIPE, stderr=subprocess.STDOUT, text=True)
+    if b.returncode == 0:
+        return
+    open(os.path.join(check.rundir, "tie.log"), "w").write(b.stdout)
+    errs = re.findall(r"error: (?:\./)?GeomV/C05/(Gen|Tie)\.lean:(\d+):\d+: (.*)", b.stdout)
+    if any(f == "Gen" for f, _, _ in errs) or not errs:
+        drop("T1 tie: the regenerated Gen.lean does not elaborate: " + " | ".join(m for f, _, m in errs if f == "Gen")[:600]
+             + ("" if errs else b.stdout[-600:]))
+        return
+    # name the tie lemma(s) whose proof failed: the last `theorem` at or before each error line
+    src = open(os.path.join(vcheck.LEAN, "GeomV", "C05", "Tie.lean")).read().split("\n")
+    bad = []
+    for _, ln, _ in errs:
+        name = "?"
+        for i in range(min(int(ln), len(src)) - 1, -1, -1):
+            m = re.match(r"theorem (\w+)", src[i])
+            if m:
+                name = m.group(1)
+                break
+        if name not in bad:
+            bad.append(name)
+    drop("T1 tie broken: " + "; ".join("%s — the Go function %s no longer denotes the model's function" % (n, TIES.get(n, "(helper lemma)")) for n in bad))
+
+
+CFG["pregen"] = pregen
